@@ -86,6 +86,11 @@ def fmtEvents (es : List Event) : String :=
 def internals (code : Int) (st : St) (src : Src) (inputLen : Nat) : String :=
   s!"code={code} line={st.line} getc={src.reads} used={inputLen - src.rest.length} curr={st.curr}"
 
+/-- outcomes the property allows for `mpt_parse_config`: success needs well nested events, every
+    value handed out must be stored data; a source that reported a read error cannot give success -/
+def cfgAlts (eof : Int) : String :=
+  if eof == -2 then "ok nest=ok vals=ok ; * || err nest=- vals=ok ; *" else "err nest=- vals=ok ; *"
+
 def cfgOf (s : State) : Format × UInt8 := parseFormat s.fmt
 
 def step (s : State) (w : List String) : State × String :=
@@ -140,20 +145,22 @@ def step (s : State) (w : List String) : State × String :=
     | some failAt =>
       let (pf, t) := cfgOf s
       match Kind.ofType t with
-      | none => (s, "R err nest=- | C . | I code=-3 line=1 getc=0 used=0 curr=0 | S err nest=- ; *")
+      | none => (s, "R err nest=- vals=ok | C . | I code=-3 line=1 getc=0 used=0 curr=0 | S err nest=- vals=ok ; *")
       | some k =>
         let cfg : Cfg := { fmt := pf, sect := s.sect, opt := s.opt, eof := s.eof }
         let r := parseConfig k cfg (record failAt) [] 0 s.input
         let evs := r.ctx.reverse
         let nest := if r.code < 0 then "-" else if (Events.run [] evs).isSome then "ok" else "bad"
         let verdict := if r.code < 0 then "err" else "ok"
-        (s, s!"R {verdict} nest={nest} | C {fmtEvents evs} | I {internals r.code r.st r.src s.input.length} | S ok nest=ok ; * || err nest=- ; *")
+        (s, s!"R {verdict} nest={nest} vals=ok | C {fmtEvents evs} | I {internals r.code r.st r.src s.input.length} | S {cfgAlts s.eof}")
   | ["p", "node"] =>
     let r := parseNode s.root s.fmt s.sect s.opt s.eof s.input
     let verdict := if r.code < 0 then "err" else "ok"
     let alts := match s.expect with
       | some f => s!"ok sound=ok ; {fmtForest f}"
-      | none => s!"ok sound=ok ; * || err sound=ok ; {fmtForest s.root}"
+      | none =>
+        if s.eof == -2 then s!"ok sound=ok ; * || err sound=ok ; {fmtForest s.root}"
+        else s!"err sound=ok ; {fmtForest s.root}"
     ({ s with root := r.children }, s!"R {verdict} sound=ok | C {fmtForest r.children} | I {internals r.code r.st r.src s.input.length} | S {alts}")
   | ["p", "end"] => (({} : State), "R ok leaks=0")
   | _ => (s, "bad-op")
